@@ -52,9 +52,17 @@ def model_ops(repo):
             if "smithy.api#httpHeader" in t:
                 ah.append(t["smithy.api#httpHeader"].lower())
                 if req: rh.append(t["smithy.api#httpHeader"].lower())
+        # does decoding the input need the whole body in memory: a payload member that is not a byte stream (XML document or text),
+        # or members without any HTTP binding (they form the XML document of the request)
+        needs_body = False
+        for mn, mv in inp.get("members", {}).items():
+            t = mv.get("traits", {})
+            bound = any(k in t for k in ("smithy.api#httpQuery", "smithy.api#httpHeader", "smithy.api#httpLabel", "smithy.api#httpPrefixHeaders", "smithy.api#httpPayload"))
+            if "smithy.api#httpPayload" in t and sh.get(mv["target"], {}).get("type") != "blob": needs_body = True
+            if not bound: needs_body = True
         vocab = sorted(set(lits) | {n for n, _ in pats} | set(aq) | {"x-id"} | set(AUTH_PARAMS))
         ops[name] = dict(name=name, method=h["method"], kind=kind, uri=uri, lits=lits, pats=pats, rq=rq, rh=rh,
-                         vocab=vocab, dh=[d for d in DISC_HEADERS if d in ah])
+                         vocab=vocab, dh=[d for d in DISC_HEADERS if d in ah], needs_body=needs_body)
     return ops
 
 def overlap(a, b):
@@ -156,6 +164,8 @@ def route_contract(ctx):
         if x in dropped: continue
         out.append(f"        //# C01:route.{x}")
         out.append(f"        wf_{x}(req, s3_path, qs) ==> (ret is Ok && ret->Ok_0.0 == super::OpId::{x}),")
+        out.append(f"        //# C01,C02:route.{x}.body_is_buffered_iff_decoding_needs_it")
+        out.append(f"        wf_{x}(req, s3_path, qs) ==> (ret is Ok && ret->Ok_0.1 == {'true' if M[x]['needs_body'] else 'false'}),")
     out.append("        //# C01:route.no_operation.other_method")
     out.append("        !(req.method is HEAD || req.method is GET || req.method is POST || req.method is PUT || req.method is DELETE) ==> ret is Err,")
     for m, k, conj in noop_groups(ctx):
